@@ -129,6 +129,9 @@ def structured(rng, name, n):
                 b[o] = rng.choice([8, 8, 8, 0])
             for o in (16, 24, 32):
                 b[o] = rng.choice([0, 1, 2, 3, 4, 0x41, 0xff])
+            for o in (15, 23, 31):
+                if b[o] == 0 and rng.random() < 0.8:
+                    b[o + 1] = 0
     elif base in ("rakp2", "rakp4") and n >= 2:
         b[1] = 0 if r < 0.7 else rng.randrange(256)
     elif base == "rakp1" and n >= 28:
@@ -146,6 +149,12 @@ def structured(rng, name, n):
         b[0], b[1] = rng.choice([(1, 0), (1, 1), (1, 5), (2, 0), (1, 0)])
         if base == "dcmipower" and n >= 4:
             b[3] = rng.choice([0, 1, n - 4, n - 3, 255])
+    elif base == "sdrhdr" and n >= 3 and r < 0.9:
+        b[2] = rng.randrange(10) * 16 + rng.randrange(10)
+    elif base == "sdrrepoinfo" and n >= 1 and r < 0.9:
+        b[0] = rng.randrange(10) * 16 + rng.randrange(10)
+    elif base == "deviceid" and n >= 4 and r < 0.9:
+        b[3] = rng.randrange(10) * 16 + rng.randrange(10)
     elif base == "dcmisensor" and n >= 2:
         b[1] = rng.choice([0, 1, (n - 2) // 2, (n - 2) // 2 + 1, 8, 255])
     return bytes(b)
